@@ -408,7 +408,7 @@ def reader_free_of_writer(ctx, rule='C09.reader-free-of-writer'):
                 if twp is None or twp - 1 >= len(t['args']):
                     continue
                 v = op_const_val(t['args'][twp - 1])
-                if v == 1 and cm is not None and cm not in F.reachable_fns([fn.owner if fn.kind == 'Closure' else fn]):
+                if v == 1 and cm is not None and cm not in F.reachable_fns([(fn.owner or fn) if fn.kind == 'Closure' else fn]):
                     res.append(bad(rule, '%s | begins a writable transaction it never commits' % fn.qual,
                                    '%s begins a transaction with writable = true at %s and cannot reach Tx::commit: a read-only operation that takes the writer lock is blocked by an open '
                                    'uncommitted writer and blocks the next one' % (fn.qual, fn.loc(bb)), where=fn.loc(bb)))
@@ -487,6 +487,41 @@ def snapshot_source(ctx, rule='C09.snapshot-source'):
     return res
 
 
+def no_busy_wait(ctx, rule='C09.no-busy-wait'):
+    """nobody waits for shared state by polling it: on the begin and commit paths there is no loop around `yield_now` / `spin_loop` / `sleep`.  The locks say who waits for
+    whom, and the lock model above shows that order to be acyclic; a polling loop is a waiting edge the locks do not show -- a commit that polls the reader registry until it is
+    empty never finishes while short readers overlap, a reader that polls a "writers waiting" counter is blocked by an open writer"""
+    res = []
+    F = ctx.facts
+    try:
+        cm = ctx.need('Tx::commit')[0]
+        bf = begin_fn(ctx)
+    except Exception as e:
+        return [unresolved(rule, str(e))]
+    roots = [x for x in (cm, bf, F.fn('DB::tx'), ctx.A.get('OpenOptions::open')) if x is not None]
+    drops = [g for g in F.fns if g.trait and g.trait.endswith('Drop') and g.name == 'drop']
+    reach = set()
+    for r in roots + drops:
+        reach |= set(F.reachable_fns([r]))
+    reach |= {f for f in F.fns if f.kind == 'Closure' and f.owner in reach}
+    WAIT = ('std::thread::yield_now', 'std::hint::spin_loop', 'std::thread::sleep', 'core::hint::spin_loop', 'std::thread::park', 'std::thread::park_timeout')
+    n = 0
+    for fn in sorted(reach, key=lambda g: g.path):
+        for bb in sorted(fn.reachable_blocks()):
+            t = fn.term(bb)
+            c = callee_of(t) if t['k'] == 'call' else None
+            if c and strip_generics(c['path']) in WAIT:
+                n += 1
+                if bb in fn.reach_from(fn.succ(bb)):
+                    res.append(bad(rule, '%s | polls in a loop (%s)' % (fn.qual, last_seg(c['path'])),
+                                   '%s waits in a loop around %s at %s on a path of transaction begin / commit / drop: whatever it polls for, the wait is invisible to the lock order, '
+                                   'and it lasts for as long as other transactions keep the polled state as it is (an open writer, overlapping readers)' % (fn.qual, c['path'], fn.loc(bb)),
+                                   where=fn.loc(bb)))
+    if not any(not r.ok for r in res):
+        res.append(ok(rule, 'no polling loop in the %d functions reachable from begin, commit, open and the destructors' % len(reach), sites=len(reach)))
+    return res
+
+
 def run(ctx, tier):
     results = []
     results += writer_excl(ctx)
@@ -494,6 +529,7 @@ def run(ctx, tier):
     results += writer_reads_after_lock(ctx)
     results += publish_before_unlock(ctx)
     results += lock_order(ctx)
+    results += no_busy_wait(ctx)
     results += reader_free_of_writer(ctx)
     results += snapshot_source(ctx)
     import c16, c13
